@@ -161,7 +161,7 @@ EXTRA6 = {
 EXTRA7 = {
     "C01": " SCOPE: as C02.SCOPE. TRIPLE also removes a relation that is absent from a single-valued row.",
     "C02": " SCOPE: remove_key / remove_data clear index rows with remove_second(set, item) only, never set-wide.",
-    "C03": " NOSHRINK: the readers' padding resize_with is reached only under new length > current length. MERGEID: Storable::merge writes back the receiver's own handle, read before the overwrite.",
+    "C03": " NOSHRINK: the readers' padding resize_with is reached only under new length > current length. MERGEID: Storable::merge writes back the receiver's own handle, read before the overwrite. REQUEST: no body unwraps or expects the answer of Request::to_handle (crate-wide, by the producer of the receiver).",
     "C05": " RESOLVE: every File::open / File::create of the file helpers opens a path from get_filepath (dominating). ORDER: no JSON writer re-orders what it writes. EXTAGREE: writer and reader of a stand-off resource decide `STAM JSON` by the same test.",
     "C06": " EXHAUST: the search leaves a candidate iterator only when it is exhausted.",
     "C08": " SORTKEY: the comparator textual_order() of text selections sorts with before dedup() also orders by the resource.",
